@@ -20,6 +20,20 @@ from env import import_dit
 BASES = ['linear', 2, 'e', 10, 3.5, 0.5]
 
 
+class _Uniforms(object):
+    """A random number generator in the documented sense (an object with a `rand` method) that is not a RandomState:
+    it hands out the uniforms of RandomState(seed), with or without a count, and records them in order."""
+
+    def __init__(self, seed):
+        self._rs = np.random.RandomState(seed % (2 ** 32))
+        self.given = []
+
+    def rand(self, *shape):
+        x = self._rs.rand(*shape)
+        self.given.extend(float(v) for v in np.atleast_1d(x).ravel())
+        return x
+
+
 class C12(object):
     id = 'C12'
     rule = ("pmfs of 1..10 stored outcomes (dyadic, tenths, random, with leading/trailing/interior stored zeros, "
@@ -29,7 +43,10 @@ class C12(object):
             "then 0-3 rounds of edits of the same, already sampled object (d[o]=v on stored and on new members, "
             "moves/swaps of probability, del d[o], normalize(), writes into d.pmf, set_base), each round followed by "
             "the whole check (explicit single/size/size>=130, seeded and own generator) with the random numbers "
-            "recomputed from the partial sums of the edited table")
+            "recomputed from the partial sums of the edited table; every case also draws from a generator object that "
+            "is not a RandomState (any object with rand(): judged on the uniforms it handed out) and is offered "
+            "generators without rand() (numpy's Generator, a bare object: a rejection is accepted, a returned sample is "
+            "judged, the object's own generator still decides the next draws)")
     tolerances = {'indices': 'exact'}
     exhaustive = {}
     modelled = ("IEEE-754 double addition is shared by CPython and the Lean runtime (trusted); theorems are over an "
@@ -314,8 +331,13 @@ class C12(object):
                     r.oracle_fail = 'copy does not reproduce the future draws of its source'
                 elif list(x) != list(z) and not self.near_boundary(cums, np.random.RandomState(seed).rand(k)):
                     r.oracle_fail = 'copy(base=%r) does not reproduce the future draws of its source' % (other,)
+        # generators that are not RandomState objects
+        if not r.oracle_fail:
+            self.other_generators(case, d, lin, index, drv, r)
         # ---- correspondence
-        if impl_single != scanf:
+        if r.mismatch:
+            pass
+        elif impl_single != scanf:
             r.mismatch = 'rand(rand=u) indices %s != model %s' % (impl_single, scanf)
         elif impl_many != scanf:
             r.mismatch = 'rand(size=n, rand=us) indices %s != model %s' % (impl_many, scanf)
@@ -328,6 +350,66 @@ class C12(object):
             table = dict((o, p) for o, p in zip(outcomes, lin))
             self.run_history(case, d, table, r, drv)
         return r
+
+    def other_generators(self, case, d, lin, index, drv, r):
+        """`prng` is documented as any object with a `rand` method.  (1) Such an object that is not a RandomState (it
+        hands out, and records, uniforms): the draws must be those its uniforms select, for size=n and for a single
+        draw.  (2) An object without `rand` (numpy's newer Generator, a bare object) cannot hand out numbers in that
+        way: a rejection is accepted whatever its type (the statement does not speak of it); a sample returned from
+        numpy's Generator would have to be the one its next uniforms select, a sample from a bare object is from
+        nowhere; and after the rejection the distribution's own generator still decides its next draws."""
+        seed = case['seed']
+        k = 5
+
+        def idx(sample):
+            return [index.get(o, 'not-an-outcome:%r' % (o,)) for o in sample]
+        try:
+            g = _Uniforms(seed)
+            a = idx(d.rand(size=k, prng=g))
+            g1 = _Uniforms(seed + 1)
+            a1 = idx([d.rand(prng=g1)])
+        except Exception as e:  # noqa
+            r.oracle_fail = 'rand raised %s: %s for a generator object with a rand() method' % (type(e).__name__, e)
+            return
+        r.features.append('prng=object-with-rand')
+        if len(a) != k or len(g.given) < k or len(g1.given) < 1:
+            r.oracle_fail = ('rand(size=%d, prng=object with rand()) returned %d draws after asking the generator for %d '
+                             'numbers (single draw: %d numbers)' % (k, len(a), len(g.given), len(g1.given)))
+            return
+        msg = self.judge(lin, (('size, prng=object with rand()', a, g.given[:k]),
+                               ('single, prng=object with rand()', a1, g1.given[:1])))
+        if msg:
+            r.oracle_fail = msg
+            return
+        _, want = drv.call('samplef', [[f2bits(p) for p in lin], [f2bits(u) for u in g.given[:k] + g1.given[:1]]])
+        if a + a1 != want:
+            r.mismatch = 'rand(prng=object with rand()) indices %s != model %s' % (a + a1, want)
+        for label, bad in (('numpy.random.Generator', np.random.default_rng(seed)), ('object()', object())):
+            try:
+                got = d.rand(size=k, prng=bad)
+            except Exception:  # noqa
+                r.features.append('prng-without-rand=rejected')
+            else:
+                r.features.append('prng-without-rand=accepted')
+                if label == 'object()':
+                    r.oracle_fail = 'rand(size=%d, prng=object()) returned %r: no generator handed out numbers' % (k, got)
+                    return
+                msg = self.judge(lin, (('prng=' + label, idx(got), [float(x) for x in np.random.default_rng(seed).random(k)]),))
+                if msg:
+                    r.oracle_fail = msg
+                    return
+            own = np.random.RandomState()
+            own.set_state(d.prng.get_state())
+            o_us = [float(x) for x in own.rand(k)]
+            try:
+                o_a = idx(d.rand(size=k))
+            except Exception as e:  # noqa
+                r.oracle_fail = 'rand(size=%d) raised %s: %s after a call with prng=%s' % (k, type(e).__name__, e, label)
+                return
+            msg = self.judge(lin, (('own prng, after a call with prng=%s' % label, o_a, o_us),))
+            if msg:
+                r.oracle_fail = msg
+                return
 
     def outcome_of(self, case, i):
         return (i // 4, i % 4) if case['joint'] else i
